@@ -43,10 +43,18 @@ def coq_case(req, res):
     if res.startswith("ok"):
         body = res[2:].strip()
         out = [tuple(int(x) for x in it.split("=")) for it in body.split(",")] if body else []
-        o = "(Some %s)" % coq_pairs(out)
+        o = "(EFull %s)" % coq_pairs(out)
+    elif res.startswith("big"):
+        _, n, h = res.split()
+        o = "(EDigest %s %s)" % (n, h)
     else:
-        o = "None"
+        o = "EPanic"
     return "mkCase %s %d %s %s" % (DIRS[d], lvl, coq_pairs(text), o)
+
+
+def heavy(res):
+    """long outputs cost the list-based model minutes (quadratic appends): only a bounded number is compared"""
+    return res.startswith("big") or res.startswith("panic")
 
 
 def run_gen(binp, seed, n, texts, stream, first=0):
@@ -102,28 +110,44 @@ def diagnose(font_term, req, res):
         return {"model": "diagnose-failed", "error": str(ex)[-400:]}
 
 
-def correspondence(chk, binp, n_fonts, texts, per_file):
+def correspondence(chk, binp, n_fonts, texts, per_file, max_heavy):
     """Well-formed stream against the model. Returns (disagreements, stats)."""
     fonts, cases, generic, summary = run_gen(binp, chk.seed, n_fonts, texts, "wf")
     ids = sorted(fonts)
     jobs = []
     index = {}
+    heavy_cases = []
     for s in range(0, len(ids), per_file):
         chunk = ids[s:s + per_file]
         body = HDR
         flat = []
         for i in chunk:
             body += "Definition f%d : font := %s.\n" % (i, fonts[i])
-            cs = cases.get(i, [])
+            cs = [c for c in cases.get(i, []) if not heavy(c[2])]
+            heavy_cases += [(i, j, r, o) for j, r, o in cases.get(i, []) if heavy(o)]
             body += "Definition c%d : list mcase := [\n%s].\n" % (i, ";\n".join(coq_case(r, o) for _, r, o in cs))
             flat += [(i, j, r, o) for j, r, o in cs]
         body += "Eval vm_compute in (summary [%s]).\n" % "; ".join("(f%d, c%d)" % (i, i) for i in chunk)
         name = "c17_wf_%d" % (s // per_file)
         jobs.append((name, body))
         index[name] = flat
+    # heavy cases: one per file, at most max_heavy, spread over distinct fonts first
+    seen = set()
+    chosen = []
+    for hc in heavy_cases:
+        if hc[0] not in seen and len(chosen) < max_heavy:
+            seen.add(hc[0])
+            chosen.append(hc)
+    for n_, (i, j, r, o) in enumerate(chosen):
+        name = "c17_heavy_%d" % n_
+        body = HDR + "Definition f%d : font := %s.\n" % (i, fonts[i])
+        body += "Eval vm_compute in (summary [(f%d, [%s])]).\n" % (i, coq_case(r, o))
+        jobs.append((name, body))
+        index[name] = [(i, j, r, o)]
     res = C.coq_eval_many(jobs, timeout=1500)
     dis = []
-    tot = {"cases": 0, "agree": 0, "outside_table": 0, "outside_alloc": 0, "both_fail": 0, "moved": 0}
+    tot = {"cases": 0, "agree": 0, "outside_table": 0, "outside_alloc": 0, "both_fail": 0, "moved": 0,
+           "long_output_cases": len(heavy_cases), "long_output_cases_compared": len(chosen)}
     kinds = {k: [0, 0] for k in KINDS}
     for name, out in sorted(res.items()):
         if isinstance(out, Exception):
@@ -137,7 +161,7 @@ def correspondence(chk, binp, n_fonts, texts, per_file):
         k = l[0]
         for gi in l[1:1 + k]:
             i, j, r, o = index[name][gi]
-            dis.append({"what": "model-and-implementation-differ", "font": i, "text": j, "request": r, "implementation": o,
+            dis.append({"what": "model-and-implementation-differ", "font": i, "text": j, "request": r, "implementation": o[:2000],
                         "font_term": fonts[i]})
         st = l[1 + k:]
         for key, v in zip(["cases", "agree", "outside_table", "outside_alloc", "both_fail"], st[:5]):
@@ -247,7 +271,7 @@ def run(chk):
         chk.add_eval(v["runs"], v["changed"])
     chk.note("oracles", ostats)
     # ---- model correspondence
-    dis, tot, kinds, generic, fonts = correspondence(chk, binp, 1500 if thorough else 260, 16, 20)
+    dis, tot, kinds, generic, fonts = correspondence(chk, binp, 1500 if thorough else 400, 16, 25, 24 if thorough else 3)
     chk.add_eval(tot["cases"], tot["moved"])
     chk.note("model_correspondence", tot)
     chk.note("subtable_kinds_ran_changed", {k: {"ran": v[0], "changed_string": v[1]} for k, v in kinds.items()})
